@@ -159,6 +159,9 @@ def run(ctx):
             # an Area object with a previous life: same map, same pattern configuration, ANOTHER rectangle; every
             # observer is consumed once, then only the rectangle is changed (select / direct assignment / on a copy())
             a = Area(map_size=c["size"], x1=w[0], y1=w[1], x2=w[2], y2=w[3])
+        elif c.get("live") == "reused":
+            # ONE Area object of the live scenario, created before the first resize and used again after every resize
+            a = live["area"].select(x1, y1, x2, y2)
         elif c.get("live"):
             # an Area handed out by a live scenario (it asks the scenario for the map size); the map was resized before
             a = live["scn"].new.area().select(x1, y1, x2, y2)
@@ -527,6 +530,8 @@ def run(ctx):
     import contextlib, io
     with contextlib.redirect_stdout(io.StringIO()):
         live["scn"] = AoE2DEScenario.from_default()
+        live["area"] = live["scn"].new.area()
+        live["area"].select_entire_map().to_coords()
     for n in ([9, 5, 12, 3] if ctx.quick else [9, 5, 12, 3, 20, 7, 1, 8]):
         live["scn"].map_manager.map_size = n
         for _ in range(ctx.budget(25, 120)):
@@ -539,6 +544,9 @@ def run(ctx):
             if -1 in c["rect"]:
                 continue
             do(c, "live-resized")
+            if not c["inv"] and c["ax"] != "o":
+                c2 = dict(c, live="reused", flip=False)
+                do(c2, "live-resized-same-area")
 
     # ---- correspondence: diff against the Lean model --------------------------------------------------------------
     drv = ctx.driver()
